@@ -16,7 +16,8 @@ def spawnAdopt (wuid wid : Nat) : M (Option Nat) := fun s =>
   | some pid =>
     let w := (s.ws.find? (·.uid = wuid)).getD defaultWatcher
     (some pid, { s with k := k',
-                        objs := s.objs ++ [{ pid := pid, wid := wid, started := k'.now }],
+                        -- `Process.started = time.time()` is taken before the fork
+                        objs := s.objs ++ [{ pid := pid, wid := wid, started := s.k.now }],
                         log := if s.blocked then s.log else s.log ++ [Obs.spawn pid w.name wid],
                         ws := s.ws.map fun w => if w.uid = wuid then { w with pids := w.pids ++ [pid] } else w })
 
@@ -104,11 +105,11 @@ def spawnTry (rec : Rec) (wuid : Nat) : Nat → M SpawnRes
     match nextWid w.np used with
     | none => pure (.raised "RuntimeError")
     | some wid =>
+      let now ← nowMs                      -- `process.started`, what spawn_process returns
       let p ← spawnAdopt wuid wid
       match p with
       | none => spawnTry rec wuid tries
       | some pid =>
-        let now ← nowMs
         let r ← callHook wuid "after_spawn"
         if !r then
           -- called without yield: detached; the worker stays registered until the kill is done
